@@ -19,7 +19,7 @@ Proof.
 Qed.
 
 Section CountAnyTail.
-Variables (q : list (list val)) (w s : Z) (tail : list node).
+Variables (q : source) (w s : Z) (tail : list node).
 Hypothesis Hs : 0 < s.
 Local Notation chain := (Trans FCountParts 1 :: Trans FSetName 2 :: Trans FReduceAdd 3 :: tail).
 Local Notation g := (Src q :: Window w s 0 :: chain).
@@ -178,7 +178,7 @@ Definition count_log (R : nat -> rdd) (k : nat) (n : nat) (ts : list Z) : list l
   cons_log (fun m => count_rdd (R m)) k n ts.
 
 Section CountProgram.
-Variables (q : list (list val)) (w s : Z) (k : nat).
+Variables (q : source) (w s : Z) (k : nat).
 Hypothesis Hs : 0 < s.
 Local Notation g := (prog_count q w s k).
 Local Notation R := (win_rdd_spec q w s).
@@ -268,9 +268,9 @@ Qed.
 End CountProgram.
 
 (* ---------- countByWindow ---------- *)
-(* the window lies entirely behind the end of the queue *)
-Definition window_exhausted (q : list (list val)) (w : Z) (n : nat) : bool := forallb is_empty_rdd (win_buf q w n).
-Definition count_obs (q : list (list val)) (w : Z) (n : nat) : list val :=
+(* every interval of the window yielded an EmptyRDD (idle entries, or behind the end of a queue without default) *)
+Definition window_exhausted (q : source) (w : Z) (n : nat) : bool := forallb is_empty_rdd (win_buf q w n).
+Definition count_obs (q : source) (w : Z) (n : nat) : list val :=
   if window_exhausted q w n then []
   else [VInt (Z.of_nat (length (concat (lastn (Z.to_nat w) (batches q n)))))].
 
@@ -281,12 +281,10 @@ Proof.
   now rewrite map_collect_win_buf.
 Qed.
 
-Lemma is_empty_src_rdd q i : is_empty_rdd (src_rdd q i) = true <-> (length q <= i)%nat.
-Proof.
-  unfold src_rdd. destruct (nth_error q i) eqn:E; cbn [is_empty_rdd].
-  - split; [discriminate|]. intros H. apply nth_error_None in H. congruence.
-  - split; auto. intros _. now apply nth_error_None.
-Qed.
+(* an interval yields an EmptyRDD iff its entry is None: an explicit idle entry, or the queue has run dry and there is
+   no default *)
+Lemma is_empty_src_rdd q i : is_empty_rdd (src_rdd q i) = true <-> nth i (sq q) (sd q) = None.
+Proof. unfold src_rdd. destruct (nth i (sq q) (sd q)); cbn; split; congruence. Qed.
 
 Lemma skipn_seq' k : forall a n, skipn k (seq a n) = seq (a + k) (n - k).
 Proof.
@@ -296,7 +294,7 @@ Proof.
 Qed.
 
 Lemma window_exhausted_spec q w n :
-  window_exhausted q w n = true <-> forall i, (n - Z.to_nat w <= i < n)%nat -> (length q <= i)%nat.
+  window_exhausted q w n = true <-> forall i, (n - Z.to_nat w <= i < n)%nat -> nth i (sq q) (sd q) = None.
 Proof.
   unfold window_exhausted, win_buf, lastn, src_rdds. rewrite map_length, seq_length, <- map_skipn, skipn_seq'.
   rewrite forallb_forall. cbn [Nat.add]. split.
@@ -305,7 +303,7 @@ Proof.
 Qed.
 
 Section CountStatements.
-Variables (q : list (list val)) (w s : Z) (tail : list node).
+Variables (q : source) (w s : Z) (tail : list node).
 Hypothesis Hs : 0 < s.
 Local Notation g := (Src q :: Window w s 0 :: Trans FCountParts 1 :: Trans FSetName 2 :: Trans FReduceAdd 3 :: tail).
 
